@@ -26,12 +26,12 @@ os.environ.setdefault("JAVA_TOOL_OPTIONS", "-XX:ParallelGCThreads=1")   # many s
 
 # (config, MaxFrames, NPages, PgMin, BothBad, MaxBad, NParts)
 MC = {
-    "quick":    [("MC_WalReader4.cfg", 4, 3, 1, False, 4, 16)],
+    "quick":    [("MC_WalReader4.cfg", 4, 3, 1, False, 2, 16)],
     "thorough": [("MC_WalReader4b.cfg", 4, 3, 1, True, 4, 48),
                  ("MC_WalReader5.cfg", 5, 3, 1, True, 1, 48),
-                 ("MC_WalReader6.cfg", 6, 2, 1, True, 2, 48)],
+                 ("MC_WalReader6.cfg", 6, 2, 1, False, 2, 48)],
 }
-NCASES = {"quick": 20000, "thorough": 150000}
+NCASES = {"quick": 20000, "thorough": 100000}
 _DIV = re.compile(r'<<"DIVERGENCE", "(\w+)", (-?\d+), (-?\d+), (-?\d+)>>')
 
 
@@ -158,7 +158,7 @@ def main():
         export = any("VerifPageMap" in open(os.path.join(vlib.REPO, f), errors="replace").read()
                      for f in os.listdir(vlib.REPO) if f.endswith(".go") and not f.endswith("_test.go"))
         fb = pool.submit(vlib.go_build, "./cmd/walreader", "walreader", "verif,verif_walchunk" if export else "verif")
-        if not replay_path:
+        if not replay_path and not os.environ.get("C09_SKIP_R1"):      # C09_SKIP_R1: test aid (seeded mutants of /repo do not touch R1)
             exhaustive(rep, tier, wd, pool)
         binary, _ = fb.result()
         env = dict(os.environ, GOMAXPROCS="2")
